@@ -14,7 +14,7 @@ RULE = ('laws: a generated tree (dict with str/int keys, list, tuple, ndarray, s
         'node, fresh dict key, list append, fresh multi-level suffix, ndarray element, SELF); views: leaf enumeration, '
         'multi-key reads, Literal/SELF/SKIP keys, key_paths, apply(map_fn), copy_and_update; non-trivial = tree depth >= 2 '
         'and the (first) path shares a proper prefix with another leaf; distinct = distinct canonical case JSON'
-        '; also: sets through negative indices, tuple-typed dict keys given as plain tuples in multi-key reads, apply() over selected key paths, shared sub-containers, plain "SELF"/"SKIP" and tuple-typed dict keys, array views, repeated paths in pair updates (list and generator), wide trees of 33..70 rows, sets made through the view a previous set returned, unsettable paths (append position followed by an impossible component)')
+        '; also: sets through negative indices, tuple-typed dict keys given as plain tuples in multi-key reads, apply() over selected key paths, shared sub-containers, plain "SELF"/"SKIP" and tuple-typed dict keys, array views, repeated paths in pair updates (list and generator), wide trees of 33..70 rows, sets made through the view a previous set returned, unsettable paths (append position followed by an impossible component), the view iterated before a set and the returned view iterated after it, pairs that put back the very object the viewed data held originally')
 ASSUMPTIONS = [
     'reference = vlib/oracles/tree_ref.py (copy-on-write set, DFS leaf enumeration) written from the TreeMapView docstrings',
     'root is a container; dict keys may be the plain strings "SELF"/"SKIP" (the reserved keys are the Key.SELF / Key.SKIP objects); '
